@@ -216,7 +216,9 @@ def check_status_calls(ctx, fns, callees, rule, pid_key="status", accept_void=()
                             "path: %s" % describe_path(fn, fn.cfg, dead[1]),
                             witness={"blocks": dead[1]})
             elif use == "void-cast":
-                ctx.bad(rule, key, where, "result of %s is explicitly discarded" % call.callee, "(void) cast")
+                # `(void)f(...)` is the same explicit, visible discard as `s = f(...); (void)s;`, which the
+                # liveness rule accepts as a read: both are a decision the author wrote down, not a lost status
+                ctx.ok(rule, key, where, what, "explicitly discarded with a (void) cast", nontrivial=False)
             else:
                 ctx.bad(rule, key, where, "result of %s is dropped" % call.callee, "expression statement")
     return n
